@@ -471,6 +471,66 @@ def enumerate_locations_warm(rec, descs, origin):
     return n
 
 
+def size_pairs():
+    """Calls on inputs of extreme size (thousands of characters: beyond every real IBAN, and beyond the interpreter's limits
+    for converting digit strings): whatever special path such inputs take is shared by the threads as well."""
+    return [
+        [{"op": "from_bban", "cc": "DE", "bban": "1" * 5000}, {"op": "from_bban", "cc": "DE", "bban": "2" * 4400}],
+        [{"op": "obj", "create": {"kind": "iban", "text": "GB00" + "AZ" * 1300}, "what": "numeric"},
+         {"op": "from_bban", "cc": "FR", "bban": "9" * 700}],
+        [{"op": "iban", "text": "DE00" + "7" * 4500}, {"op": "iban", "text": " ".join(["NO93"] + ["8601"] * 1200), "allow_invalid": True}],
+    ]
+
+
+def enumerate_locations_two_point(rec, descs, origin, part=0, parts=1):
+    """Two-point schedules by location: call 0 runs to its first arrival at La, call 1 runs to its first arrival at Lb, call 0
+    runs to its end, call 1 finishes - for every La (of this shard's part) and every Lb. This is the save / modify / restore
+    shape: the second thread reads shared state inside the first one's window and acts on it after the window closed."""
+    _, locs0 = sched.trace_locations(make_call(descs[0]), repo_root())
+    _, locs1 = sched.trace_locations(make_call(descs[1]), repo_root())
+    expected = [alone(d) for d in descs]
+    n = 0
+    for ai, La in enumerate(locs0):
+        if ai % parts != part:
+            continue
+        for Lb in locs1:
+            if out_of_budget(rec):
+                return n
+            pts = [(0, La, 1, 1), (1, Lb, 1, 0)]
+            inp = {"calls": descs, "loc_points": [list(p) for p in pts], "schedule": [], "origin": origin, "cold": False}
+            try:
+                got, info = sched.run_concurrently([make_call(d) for d in descs], [], repo_root(), loc_points=pts)
+            except sched.SchedulerError as e:
+                raise HarnessError(f"scheduler error: {e} on {origin} {pts}")
+            n += 1
+            rec.evals += 1
+            if len(info["switches"]) >= 2:
+                rec.nt.add(hash((json.dumps(descs, sort_keys=True)[:200], La, Lb)))
+            if [g_ for g_ in got] != [w for w, _ in expected]:
+                rec.fail(f"interference|{descs[0]['op']}|with:{descs[1]['op']}|two-point", "concurrent_equals_alone", inp,
+                         [list(w) for w, _ in expected], [list(g_) for g_ in got])
+                _ALONE.clear()
+    return n
+
+
+def shard_two_point(arg):
+    i, seed, tier = arg
+    import random
+    rng = random.Random(f"{seed}:C14:two-point")      # the same pairs in every shard; the shards split the first call's locations
+    rec = Rec()
+    start_budget(tier, quick_s=40, thorough_s=400)
+    state()
+    pairs = size_pairs()[:1] if tier == "quick" else size_pairs() + level_pairs(rng) + draw_pairs(rng)
+    for descs in pairs:
+        for order in (descs, descs[::-1]):
+            n = enumerate_locations_two_point(rec, order, "two-point", part=i, parts=16)
+            rec.classes["two-point-schedules"] += n
+            if any(len(str(d.get("bban", d.get("text", "")))) > 1000 for d in order):
+                rec.classes["two-point-size-extreme"] += n
+    rec.exhaustive.append("every (location of call 0, location of call 1) pair as a two-point schedule, both orders, per pair")
+    return rec
+
+
 def shard_locations(arg):
     i, seed, tier = arg
     import random
@@ -721,9 +781,10 @@ def run(ctx):
                        "granularity: source line (opcode samples in thorough)"]
     ctx.pmap(shard_method, [(m, ctx.seed, ctx.tier) for m in st["impl"]])
     ctx.pmap(shard_locations, [(i, ctx.seed, ctx.tier) for i in range(16)])
+    ctx.pmap(shard_two_point, [(i, ctx.seed, ctx.tier) for i in range(16)])
     ctx.pmap(shard_cold, [(i, ctx.seed, ctx.tier) for i in range(16)] + [("aged", i, ctx.seed, ctx.tier) for i in range(16)])
     ctx.pmap(shard_national, [(cc, ctx.seed, ctx.tier) for cc in NATIONAL])
     ctx.pmap(shard_mixed, [(i, ctx.seed, ctx.tier) for i in range(16 if ctx.quick else 32)])
     ctx.hyp_parallel(strategy, hyp_body, ctx.pick(640, 12000), name="C14-hyp")
-    ctx.require_classes("failing-prelude", "burst-while-paused-schedules", "loc-warm-schedules", "loc-cold-schedules", "loc-cold-pair", "mixed", "hyp", "random-2-threads", "random-3-threads", "random-national",
+    ctx.require_classes("two-point-schedules", "two-point-size-extreme", "failing-prelude", "burst-while-paused-schedules", "loc-warm-schedules", "loc-cold-schedules", "loc-cold-pair", "mixed", "hyp", "random-2-threads", "random-3-threads", "random-national",
                         *[f"enum-{m}" for m in st["impl"]], *[f"enum-national-{cc}" for cc in NATIONAL])
